@@ -83,13 +83,16 @@ Print Assumptions C13_merge_undo.
 (* The composition law  apply (merge (diff A B) (diff B C)) A = Ok C  in the case it is proved for: C = A (the second
    diff undoes the first), over any schema (hypothesis schema_nouo removed, see C13_merge_undo).
    Proved beyond it: C13_merge_apply_partial_mixed (end of this file) - every C in which the top-level identities touched
-   by both diffs are back at their state in A; C = A and the disjoint case are instances of it.
+   by both diffs are back at their state in A; C = A and the disjoint case are instances of it - and
+   C13_merge_apply_partial_cells: in addition the roots that meet may be leaves in the cells replace + replace,
+   create + replace, delete + create (mdflt = false).
    What remains missing for the full statement, precisely: a proof for the MIXED cells, i.e. for a root (or, below two
    none nodes, a child) of diff(B,C) that meets a node of diff(A,B) with the same identity without undoing it:
    replace + replace to a third value, create + replace / none, replace / none + delete, delete + create with another
    value, none(inner) + none(inner) with changes below that are not each other's undo.  The level bookkeeping is done
    (DiffMergeP.level_build: LevelSp from pointwise facts; mix_fold: the fold over the source roots with the outcomes
-   cancel / add); what these cells still need is (1) a third outcome of the fold - the met node replaced in place -, (2) per
+   cancel / add, mix_fold3: with the third outcome, the met node replaced in place; cell_replace_replace, cell_create_replace,
+   cell_delete_create: the Sp of the merged leaf); what the remaining cells still need is (2) per
    cell the Sp of the merged node (for none + none: Sp_none_inner of the merged parent via sp_inner_build), (3) for
    none + none the recursion through merge_children with the default-flag walks and the removal of a parent that
    becomes redundant, and (4) for children added below a merged list instance a schema fact the model does not have yet:
@@ -181,6 +184,51 @@ Example C13_merge_mixed_example :
       existsb (fun s => existsb (fun t => same_idb w_sch (dd_node s) (dd_node t)) d1) d2 = true /\
       match merge w_sch false (map redup d1) d2 with
       | Ok m => length m = 1%nat /\ apply w_sch m r_A = Ok fc
+      | Err _ => False
+      end
+  | _, _ => False
+  end.
+Proof. vm_compute. repeat split; reflexivity. Qed.
+
+(* The composition law when the top-level roots that meet are operations on a LEAF in one of the cells of the merge table
+   in which the met root is replaced in place - replace + replace (to a third value: replace with the first orig-value;
+   back to the value with another default flag: none; back altogether: removed), create + replace (created with the last
+   value), delete + create (another value: replace; the same value with another flag: none; the same leaf: removed) - or
+   cancel as in C13_merge_apply_partial_mixed, which is the instance without such cells.  Without LYD_DIFF_MERGE_DEFAULTS:
+   with it the cell delete + create is the known finding merge-defaults-opt-delete-create.  The hypothesis is stated on
+   the two diffs (executable).
+   Still missing after this step: the other leaf cells (replace or create + none (flag), none + replace / none, replace /
+   none / create + delete of a leaf that met a non-cancelling change), every cell of a root that is an inner node or a
+   leaf-list / list instance without cancelling - none (inner) + none (inner) with the recursion through merge_children,
+   the default-flag walks, the removal of a parent that becomes redundant, and the keys-lead schema fact for children
+   added below a merged list instance (see C13_merge_apply_partial) -, and the same cells below the top level. *)
+Theorem C13_merge_apply_partial_cells :
+  forall sch fa fb fc d1 d2,
+  wfb sch fa = true -> wfb sch fb = true -> wfb sch fc = true ->
+  diff sch true fa fb = Ok d1 -> diff sch true fb fc = Ok d2 ->
+  (forall s t j, In s d2 -> In t d1 -> dd_id sch s = Some j -> dd_id sch t = Some j ->
+                 find_match sch true fc (Some j) = find_match sch true fa (Some j) \/ leaf_cell sch s t) ->
+  exists m, merge sch false (map redup d1) d2 = Ok m /\ apply sch m fa = Ok fc.
+Proof. intros sch fa fb fc d1 d2. exact (merge_apply_cells sch false fa fb fc d1 d2 eq_refl). Qed.
+Print Assumptions C13_merge_apply_partial_cells.
+
+(* the three cells at once: leaves x, y, z; A = {x = 1, z = 8}, B = {x = 2, y = 5}, C = {x = 3, y = 6, z = 9}:
+   x replace + replace, y create + replace, z delete + create with another value; three merged roots, applied to A: C *)
+Definition c_sch : schema :=
+  [ (0, mk_sinfo KLeaf None [] false true [] [] false 0 None OBytes);
+    (1, mk_sinfo KLeaf None [] false true [] [] false 0 None OBytes);
+    (2, mk_sinfo KLeaf None [] false true [] [] false 0 None OBytes) ].
+Example C13_merge_cells_example :
+  let fa := [DN 0 [49] false [] []; DN 2 [56] false [] []] in
+  let fb := [DN 0 [50] false [] []; DN 1 [53] false [] []] in
+  let fc := [DN 0 [51] false [] []; DN 1 [54] false [] []; DN 2 [57] false [] []] in
+  wfb c_sch fa = true /\ wfb c_sch fb = true /\ wfb c_sch fc = true /\
+  match diff c_sch true fa fb, diff c_sch true fb fc with
+  | Ok d1, Ok d2 =>
+      map dd_op d1 = [Some OpReplace; Some OpCreate; Some OpDelete] /\
+      map dd_op d2 = [Some OpReplace; Some OpReplace; Some OpCreate] /\
+      match merge c_sch false (map redup d1) d2 with
+      | Ok m => map dd_op m = [Some OpReplace; Some OpCreate; Some OpReplace] /\ apply c_sch m fa = Ok fc
       | Err _ => False
       end
   | _, _ => False
